@@ -48,18 +48,23 @@ def baseSemitone (order : List (Degree × Int)) (d : Degree) : Option Int :=
   | some v => some v
   | none => adjustSemitone order d
 
-/-- `Degree.Semitone` with explicit fuel (Go recursion: `Value - perfect8.Value + 1`). -/
-def semitoneF (order : List (Degree × Int)) : Nat → Degree → Option Int
-  | 0, _ => none
-  | f+1, d =>
-    if d.value = 0 then none
-    else if d.value ≤ octaveDegree.value then baseSemitone order d
-    else match semitoneF order f ⟨d.value - octaveDegree.value + 1, d.name⟩ with
-      | some v => some (v + (lookup octaveDegree degreeSemitoneTable).getD 0)
-      | none => none
+/-- the inner call `e.Semitone()` on the reduced interval (it takes the table branch: `e.Value ≤ 8`) -/
+def simpleSemitone (order : List (Degree × Int)) (d : Degree) : Option Int :=
+  if d.value = 0 then none
+  else if d.value ≤ octaveDegree.value then baseSemitone order d
+  else none
 
+/-- `Degree.Semitone` (after the D19 fix: compound intervals are reduced by all whole octaves at once).
+Go multiplies in `int`; the model is exact (no wrap below 2^59 octaves). -/
 def Degree.semitoneWith (order : List (Degree × Int)) (d : Degree) : Option Int :=
-  semitoneF order (d.value + 1) d
+  if d.value = 0 then none
+  else if d.value ≤ octaveDegree.value then baseSemitone order d
+  else
+    let span := octaveDegree.value - 1
+    let octaves := (d.value - 2) / span
+    match simpleSemitone order ⟨d.value - span * octaves, d.name⟩ with
+    | some v => some (v + (octaves : Int) * (lookup octaveDegree degreeSemitoneTable).getD 0)
+    | none => none
 
 /-- `Degree.Semitone` (iteration order = source order; shown irrelevant in `Props/C12`). -/
 def Degree.semitone (d : Degree) : Option Int := d.semitoneWith degreeSemitoneTable
